@@ -231,6 +231,30 @@ def lifetimes(s):
     return set(re.findall(r"'(\w+)", s))
 
 
+ACCESSOR_ADT = re.compile(r"volatile_memory::(VolatileSlice|VolatileRef|VolatileArrayRef|PtrGuard|PtrGuardMut)$")
+
+
+def _uses_unsafe(prog, body):
+    """does the source-level function (body + closures + inlined helpers) contain anything that needs an `unsafe` block or that
+    builds an accessor from its parts: a call to an unsafe fn, a raw-pointer dereference, an accessor aggregate, a union/static access"""
+    for fb in prog.family(body):
+        for _pos, t in fb.terms():
+            if t["k"] == "call" and (t.get("callee_unsafe") or "callee" not in t):
+                return True
+        for _pos, s in fb.stmts():
+            if s["k"] != "assign":
+                continue
+            rv = s["rv"]
+            if rv["k"] == "agg" and ACCESSOR_ADT.search(str(rv.get("adt", ""))):
+                return True
+            if rv["k"] == "cast" and rv.get("cast") == "Transmute":
+                return True
+            for pl in [s["lhs"]] + [o["pl"] for o in ([rv.get("op"), rv.get("a"), rv.get("b")] + list(rv.get("ops", []))) if isinstance(o, dict) and "pl" in o] + ([rv["pl"]] if "pl" in rv else []):
+                if "*" in pl.get("p", []) and fb.local_ty(pl["l"]).k == "ptr":
+                    return True
+    return False
+
+
 def rule_signatures(ctx, prog):
     n = 0
     acc = re.compile(r"Volatile(Slice|Ref|ArrayRef)<|&'")
@@ -245,6 +269,12 @@ def rule_signatures(ctx, prog):
             continue
         n += 1
         sig = f["sig"]
+        body = prog.by_id.get(path)
+        if body is not None and not _uses_unsafe(prog, body):
+            # a function written entirely in safe Rust cannot forge a lifetime: rustc's borrow checker already bounds whatever it
+            # returns by what it was derived from (e.g. an accessor over an empty `&'a mut [u8]`), whatever the signature looks like
+            ctx.ob("R12.5.signature", key, True, "", f"no unsafe operation in the body or its closures: the returned accessor's lifetime is decided by the borrow checker (sig: {sig[:120]})")
+            continue
         m = re.match(r"^(for<[^>]*> )?(unsafe )?fn\((.*)\) -> (.*)$", sig)
         ins, outs = (m.group(3), m.group(4)) if m else ("", out)
         lo = lifetimes(outs) - {"_"}
